@@ -10,6 +10,11 @@
     textByRef                                    the TEXT arm copies by reference through put_string_slice() with
                                                  `cell->v.text.offs + offset` (fixes/C13_2)
     holdsStringRef                               the TEXT arm takes a reference on the string around the copy
+    destSizeUnused                               copyrect() reads only `top` and `left` of `dstrect` (the size of the
+                                                 copy is the source rectangle's)
+    moveKeepsSrcSizedDest                        moverect() computes the vacated area as `{src}` minus the rectangle
+                                                 `{dest->top, dest->left, src->lines, src->cols}` (not minus `dest` as
+                                                 passed, whose size is not meaningful) and skips each of its rectangles
 Props/C13.lean proves that these are what the model `Variant.repaired` assumes; a tree whose copyrect() reads
 differently breaks that proof obligation.
 """
@@ -184,6 +189,29 @@ def run(ctx):
     body += f"def captures : Bool := {'true' if captures else 'false'}\n"
     body += f"def textByRef : Bool := {'true' if by_ref else 'false'}\n"
     body += f"def holdsStringRef : Bool := {'true' if holds else 'false'}\n"
+    # the destination rectangle: only its position may be read
+    dst_fields = set(re.findall(r"\bdstrect\s*->\s*(\w+)", cr)) | ({"*"} if re.search(r"\bdstrect\b(?!\s*->)", cr[cr.find("{"):]) else set())
+    dest_size_unused = bool(cr) and dst_fields == {"top", "left"}
+    mv = func_body(rbc, r"void\s+tickit_renderbuffer_moverect\s*\([^)]*\)\s*\{") or ""
+    ws = lambda x: re.sub(r"\s+", "", x)
+    mvw = ws(mv)
+    lit = r"&\(TickitRect\)\{([^}]*)\}"
+    msub = re.search(r"tickit_rectset_subtract\(cleararea," + lit + r"\);", mvw)
+    fields = None
+    if msub:
+        fields = dict(f.lstrip(".").split("=", 1) for f in msub.group(1).rstrip(",").split(",") if "=" in f)
+    move_ok = bool(
+        fields == {"top": "dest->top", "left": "dest->left", "lines": "src->lines", "cols": "src->cols"} and
+        mvw.count("tickit_rectset_subtract(") == 1 and
+        mvw.count("tickit_rectset_add(") == 1 and "tickit_rectset_add(cleararea,src);" in mvw and
+        re.search(r"copyrect\(rb,rb,dest,src,true\);.*tickit_rectset_add\(cleararea,src\);.*tickit_rectset_subtract\(", mvw) and
+        re.search(r"for\(size_ti=0;i<n;i\+\+\)\{TickitRectrect;tickit_rectset_get_rect\(cleararea,i,&rect\);"
+                  r"tickit_renderbuffer_skiprect\(rb,&rect\);\}", mvw) and
+        "size_tn=tickit_rectset_rects(cleararea);" in mvw)
+    facts.update({"destSizeUnused": dest_size_unused, "moveKeepsSrcSizedDest": move_ok,
+                  "dstrectFieldsRead": sorted(dst_fields), "moveSubtracts": fields})
+    body += f"def destSizeUnused : Bool := {'true' if dest_size_unused else 'false'}\n"
+    body += f"def moveKeepsSrcSizedDest : Bool := {'true' if move_ok else 'false'}\n"
     body += "end Tickit.Gen.RBCopy\n"
     write("RBCopy", body)
     info["rbcopy"] = facts
